@@ -1,6 +1,7 @@
 package props
 
 import (
+	"fmt"
 	"go/ast"
 	"go/constant"
 	"go/types"
@@ -25,7 +26,7 @@ func init() {
 			"NOT decided: numerical agreement with the Prometheus engine (window selection, extrapolation, staleness, label sets), which quantifies over sample values.",
 		Assumptions: commonAssumptions,
 		Technique:   "static analysis: registry/table agreement from the typed AST (emitted names ⊆ registered names)",
-		Rules:       "C18.R1",
+		Rules:       "C18.R1 R2",
 	}
 }
 
@@ -751,6 +752,48 @@ func c18(c *an.Ctx) {
 	r.AddSites(n)
 	r.Floor(40, "transpiler function table entries")
 	_ = types.Universe
+	c18counterOnlyClamp(c)
+}
+
+// c18counterOnlyClamp — C18.R2.  rate/increase/delta share Prometheus's extrapolatedRate: the
+// result is extrapolated to the window boundaries, and FOR COUNTERS ONLY the extrapolation to
+// the window start stops where the series would cross zero (`if isCounter && result > 0 && first
+// >= 0`).  openGemini has two copies of that kernel — the store-side range-vector merge and the
+// executor-side sub-query function; delta() uses both with isCounter = false.  Both copies must
+// put the zero clamp under isCounter, otherwise delta() of a gauge that rises from near zero
+// differs from Prometheus (and from the other copy).
+func c18counterOnlyClamp(c *an.Ctx) {
+	r := c.Rule("C18.R2", "K-SIBLING", "both copies of the rate/increase/delta extrapolation kernel apply the zero-crossing clamp only to counters")
+	n := 0
+	for _, k := range []struct{ spec, lit string }{
+		{"engine/executor:rate", "sub-query kernel"},
+		{"engine:floatPromRateMerge", "store-side range-vector kernel"},
+	} {
+		f := fn(r, k.spec)
+		if f == nil {
+			continue
+		}
+		// the kernel is the function literal the constructor returns
+		for i, lit := range f.FindLits() {
+			g := f.Lit(lit, fmt.Sprint("kernel", i))
+			clamp := g.Find(an.MNode("durationToStart = durationToZero", func(h *an.Fn, m ast.Node) bool {
+				as, ok := m.(*ast.AssignStmt)
+				if !ok || len(as.Lhs) != 1 || len(as.Rhs) != 1 {
+					return false
+				}
+				l, ok1 := as.Lhs[0].(*ast.Ident)
+				rr, ok2 := as.Rhs[0].(*ast.Ident)
+				return ok1 && ok2 && l.Name == "durationToStart" && rr.Name == "durationToZero"
+			}))
+			if clamp.Len() == 0 {
+				continue
+			}
+			n += clamp.Len()
+			g.Guarded(r, clamp, k.lit+": zero-crossing clamp only for counters", an.AtomLike(`^(outer\d+\.)?p1$|isCounter`, true))
+		}
+	}
+	r.AddSites(n)
+	r.Floor(2, "copies of the extrapolation kernel")
 }
 
 func keysOfMap(m map[string]bool) []string {
